@@ -781,7 +781,8 @@ def render(t):
 
 _DRIVER_FILES = {"registry": "Registry", "exec": "Exec", "items": "ItemSpace", "relative": "Relative",
                  "export": "Export", "codec": "Codec", "iospec": "IOSpec", "capture": "Capture",
-                 "backup": "Backup", "calcsteps": "CalcSteps", "struct": "Struct", "smech": "SMech"}
+                 "backup": "Backup", "calcsteps": "CalcSteps", "struct": "Struct", "smech": "SMech",
+                 "serial": "Serial"}
 
 
 def _import_closure(start_files):
